@@ -143,7 +143,7 @@ pub fn run(rec: &mut Recorder, w: &mut World, tier: &str, seed: u64) {
                     Step::M(op) => { rec.count(&format!("op:{}", op.kind())); rec.exec(w, &op.line()); op.line() }
                     Step::Load => { rec.count("op:load_policy"); rec.exec(w, "e.load"); s("e.load") }
                     Step::SetRm => { rec.count("op:set_role_manager"); rec.exec(w, "e.setrm"); s("e.setrm") }
-                    Step::Fault(f, op) => { rec.count("op:rejected-call"); rec.exec(w, &format!("e.fault\t{}", f)); rec.exec(w, &op.line()); rec.exec(w, "e.fault\t-"); format!("fault {} {}", f, op.line()) }
+                    Step::Fault(f, op) => { rec.count("op:rejected-call"); rec.exec(w, &format!("e.fault\t{}", fault_plan(op, f))); rec.exec(w, &op.line()); rec.exec(w, "e.fault\t-"); format!("fault {} {}", f, op.line()) }
                     Step::AutoSave(v) => { rec.exec(w, &format!("e.auto\tsave\t{}", v)); format!("autosave {}", v) }
                     Step::Save => { rec.count("op:save_policy"); rec.exec(w, "e.save"); s("e.save") }
                 };
